@@ -16,6 +16,12 @@ def run(tier, only=None):
             for i1 in range(4):
                 conds.append(Cond("harness.h_c13", "h_hist2", t, part=i1 * 100 + k1 * 10 + shape,
                                   label="h_hist2[shape=%d, first step: %s on n%d]" % (shape, KINDS[k1], i1)))
+    # targeted depth 3 (quick too): declare somewhere, ATTACH the isolated node / the second tree, then any third step
+    for shape, attach_nodes in ((3, (3,)), (2, (2,))):
+        for i1 in range(4):
+            for i2 in attach_nodes:
+                conds.append(Cond("harness.h_c13", "h_hist3", t, part=(1 + 2 * 4 + i2) * 1000 + i1 * 100 + 0 * 10 + shape,
+                                  label="h_hist3[shape=%d: declare on n%d; attach n%d; any third step]" % (shape, i1, i2)))
     groupings = [5, 12] if tier == "quick" else list(range(15))
     for shape in ((0,) if tier == "quick" else (0, 1, 2)):
         for g in groupings:
